@@ -37,8 +37,12 @@ def canon(dump):
         t = T.get(i)
         return None if (t is None or i == 0) else "T:" + t["true_name"]
 
+    dangling = []
+
     def fk(i):
         f = F.get(i)
+        if f is None and i != 0:
+            dangling.append(("function", i))
         if f is None or i == 0:
             return None
         return "F:" + f["library_name"] + ":" + f["scoped_name"] + ":" + f["prototype"]
@@ -111,7 +115,11 @@ def canon(dump):
                 globals=sorted(map(str, map(ek, dump["globals"]))),
                 manifests=sorted(M[m]["name"] for m in dump["manifest_list"] if m in M))
     out["__enumerations__"] = glob
+    canon.dangling = dangling
     return out
+
+
+canon.dangling = []
 
 
 def first_diff(a, b):
@@ -284,6 +292,10 @@ def run_case(ctx, case):
         if d["error_flag_after"]:
             res.violation("error-flag-set-after-good-loads", perm=perm, replay_case=rcase)
         c = canon(d)
+        if canon.dangling:
+            # "every cross reference is carried over to the merged indices": a function reference of the merged
+            # database that names no function record
+            res.violation("dangling-function-reference-after-merge", refs=canon.dangling[:5], perm=perm, replay_case=rcase)
         if case.get("ranges"):
             ml = [l.split() for l in r.out.splitlines() if l.startswith("G ")]
             rngs = [(int(x[2]), int(x[3])) for x in ml]
